@@ -343,6 +343,26 @@ func (n *Node) DefragMem() int {
 	})
 }
 
+// Header makes the node learn a block by its header only, the way a `headers` message does
+// (client/network ProcessNewHeader: PreCheckBlock + AcceptHeader under the index lock); the block itself never comes.
+func (n *Node) Header(raw []byte) error {
+	if len(raw) < 80 {
+		return fmt.Errorf("short header")
+	}
+	bl, er := btc.NewBlock(raw[:80])
+	if er != nil {
+		return er
+	}
+	ch := n.Ch
+	ch.BlockIndexAccess.Lock()
+	defer ch.BlockIndexAccess.Unlock()
+	if _, _, e := ch.PreCheckBlock(bl); e != nil {
+		return e
+	}
+	ch.AcceptHeader(bl)
+	return nil
+}
+
 func (n *Node) Tip() (h [32]byte, height uint32) {
 	l := n.Ch.LastBlock()
 	return l.BlockHash.Hash, l.Height
